@@ -163,3 +163,107 @@ package yubiagent
 //@   ensures [one-attest-slot-request-naming-the-slot] calls(client.call) == k0 + 1 && arg(client.call, k0, 0) == c && len(arg(client.call, k0, 1)) == 1 + len(slot) &&
 //@     argc(client.call, k0, 1)[off(arg(client.call, k0, 1))] == 34 && forall(j, 0 <= j && j < len(slot), argc(client.call, k0, 1)[off(arg(client.call, k0, 1)) + 1 + j] == slot[j])
 //@   ensures [transport-failure-is-an-error] ret(client.call, k0, 1) != nil ==> (cert == nil && err == ret(client.call, k0, 1))
+
+//@ # operations of the standard agent protocol: handed to the x/crypto client with the same arguments, under the connection lock
+//@ func (*client).List(c)
+//@   requires c != nil && cinv(c) && cfree(c)
+//@   modifies mstate(addrof(c.connLock))
+//@   let a0 = old(calls(Agent.List))
+//@   ensures cfree(c)
+//@   ensures [same-arguments-same-result-under-the-connection-lock] (calls(Agent.List) == a0 + 1 && arg(Agent.List, a0, 0) == c.agent && result0 == ret(Agent.List, a0, 0) && result1 == ret(Agent.List, a0, 1))
+
+//@ func (*client).Sign(c, key, data)
+//@   requires c != nil && cinv(c) && cfree(c)
+//@   modifies mstate(addrof(c.connLock))
+//@   let a0 = old(calls(Agent.Sign))
+//@   ensures cfree(c)
+//@   ensures [nil-key-is-refused-locally] key == nil ==> (result1 != nil && calls(Agent.Sign) == a0)
+//@   ensures [same-arguments-same-result-under-the-connection-lock] key != nil ==> (calls(Agent.Sign) == a0 + 1 && arg(Agent.Sign, a0, 0) == c.agent && arg(Agent.Sign, a0, 1) == key && arg(Agent.Sign, a0, 2) == data && result0 == ret(Agent.Sign, a0, 0) && result1 == ret(Agent.Sign, a0, 1))
+
+//@ func (*client).SignWithFlags(c, key, data, flags)
+//@   requires c != nil && cinv(c) && cfree(c)
+//@   modifies mstate(addrof(c.connLock))
+//@   let a0 = old(calls(ExtendedAgent.SignWithFlags))
+//@   ensures cfree(c)
+//@   ensures [nil-key-is-refused-locally] key == nil ==> (result1 != nil && calls(ExtendedAgent.SignWithFlags) == a0)
+//@   ensures [same-arguments-same-result-under-the-connection-lock] key != nil ==> (calls(ExtendedAgent.SignWithFlags) == a0 + 1 && arg(ExtendedAgent.SignWithFlags, a0, 0) == c.agent && arg(ExtendedAgent.SignWithFlags, a0, 1) == key && arg(ExtendedAgent.SignWithFlags, a0, 2) == data && arg(ExtendedAgent.SignWithFlags, a0, 3) == flags && result0 == ret(ExtendedAgent.SignWithFlags, a0, 0) && result1 == ret(ExtendedAgent.SignWithFlags, a0, 1))
+
+//@ func (*client).Add(c, key)
+//@   requires c != nil && cinv(c) && cfree(c)
+//@   modifies mstate(addrof(c.connLock))
+//@   let a0 = old(calls(Agent.Add))
+//@   ensures cfree(c)
+//@   ensures [same-arguments-same-result-under-the-connection-lock] (calls(Agent.Add) == a0 + 1 && arg(Agent.Add, a0, 0) == c.agent && arg(Agent.Add, a0, 1) == key && result == ret(Agent.Add, a0, 0))
+
+//@ func (*client).Remove(c, key)
+//@   requires c != nil && cinv(c) && cfree(c)
+//@   modifies mstate(addrof(c.connLock))
+//@   let a0 = old(calls(Agent.Remove))
+//@   ensures cfree(c)
+//@   ensures [nil-key-is-refused-locally] key == nil ==> (result != nil && calls(Agent.Remove) == a0)
+//@   ensures [same-arguments-same-result-under-the-connection-lock] key != nil ==> (calls(Agent.Remove) == a0 + 1 && arg(Agent.Remove, a0, 0) == c.agent && arg(Agent.Remove, a0, 1) == key && result == ret(Agent.Remove, a0, 0))
+
+//@ func (*client).RemoveAll(c)
+//@   requires c != nil && cinv(c) && cfree(c)
+//@   modifies mstate(addrof(c.connLock))
+//@   let a0 = old(calls(Agent.RemoveAll))
+//@   ensures cfree(c)
+//@   ensures [same-arguments-same-result-under-the-connection-lock] (calls(Agent.RemoveAll) == a0 + 1 && arg(Agent.RemoveAll, a0, 0) == c.agent && result == ret(Agent.RemoveAll, a0, 0))
+
+//@ func (*client).Lock(c, passphrase)
+//@   requires c != nil && cinv(c) && cfree(c)
+//@   modifies mstate(addrof(c.connLock))
+//@   let a0 = old(calls(Agent.Lock))
+//@   ensures cfree(c)
+//@   ensures [same-arguments-same-result-under-the-connection-lock] (calls(Agent.Lock) == a0 + 1 && arg(Agent.Lock, a0, 0) == c.agent && arg(Agent.Lock, a0, 1) == passphrase && result == ret(Agent.Lock, a0, 0))
+
+//@ func (*client).Unlock(c, passphrase)
+//@   requires c != nil && cinv(c) && cfree(c)
+//@   modifies mstate(addrof(c.connLock))
+//@   let a0 = old(calls(Agent.Unlock))
+//@   ensures cfree(c)
+//@   ensures [same-arguments-same-result-under-the-connection-lock] (calls(Agent.Unlock) == a0 + 1 && arg(Agent.Unlock, a0, 0) == c.agent && arg(Agent.Unlock, a0, 1) == passphrase && result == ret(Agent.Unlock, a0, 0))
+
+//@ func (*client).Signers(c)
+//@   requires c != nil && cinv(c) && cfree(c)
+//@   modifies mstate(addrof(c.connLock))
+//@   let a0 = old(calls(Agent.Signers))
+//@   ensures cfree(c)
+//@   ensures [same-arguments-same-result-under-the-connection-lock] (calls(Agent.Signers) == a0 + 1 && arg(Agent.Signers, a0, 0) == c.agent && result0 == ret(Agent.Signers, a0, 0) && result1 == ret(Agent.Signers, a0, 1))
+
+//@ func (*client).Extension(c, extensionType, contents)
+//@   requires c != nil && cinv(c) && cfree(c)
+//@   modifies mstate(addrof(c.connLock))
+//@   let a0 = old(calls(ExtendedAgent.Extension))
+//@   ensures cfree(c)
+//@   ensures [same-arguments-same-result-under-the-connection-lock] (calls(ExtendedAgent.Extension) == a0 + 1 && arg(ExtendedAgent.Extension, a0, 0) == c.agent && arg(ExtendedAgent.Extension, a0, 1) == extensionType && arg(ExtendedAgent.Extension, a0, 2) == contents && result0 == ret(ExtendedAgent.Extension, a0, 0) && result1 == ret(ExtendedAgent.Extension, a0, 1))
+
+//@ func (*client).Close(c)
+//@   requires c != nil && cinv(c)
+//@   ensures calls(Closer.Close) == old(calls(Closer.Close)) + 1 && result == ret(Closer.Close, old(calls(Closer.Close)), 0)
+
+//@ # ---------------------------------------------------------------- C13: slots on the serving side
+//@ func (*server).ListSlots(s)
+//@   requires s != nil
+//@   let e0 = old(calls(Cmd.Output))
+//@   ensures [refused-in-remote-mode] s.remote ==> (slots == nil && err != nil && calls(Cmd.Output) == e0)
+//@   ensures [tool-failure-is-an-error] (!s.remote && calls(Cmd.Output) == e0 + 1 && ret(Cmd.Output, e0, 1) != nil) ==> (slots == nil && err == ret(Cmd.Output, e0, 1))
+//@   ensures [one-status-query] !s.remote ==> calls(Cmd.Output) == e0 + 1
+//@   ensures [two-characters-after-Slot] (!s.remote && err == nil) ==> forall(k, 0 <= k && k < len(slots), len(slots[k]) == 2)
+//@   loop 1:
+//@     invariant !s.remote && calls(Cmd.Output) == e0 + 1 && ret(Cmd.Output, e0, 1) == nil && (slots == nil || fresh(arr(slots)))
+//@     invariant forall(k, 0 <= k && k < len(slots), len(slots[k]) == 2)
+
+//@ func (*server).ReadSlot(s, slot)
+//@   requires s != nil
+//@   modifies all
+//@   let e0 = old(calls(Cmd.Output))
+//@   ensures [refused-in-remote-mode] s.remote ==> (cert == nil && err != nil && calls(Cmd.Output) == e0)
+//@   ensures [tool-failure-is-an-error] (!s.remote && ret(Cmd.Output, e0, 1) != nil) ==> (cert == nil && err == ret(Cmd.Output, e0, 1))
+
+//@ func (*server).AttestSlot(s, slot)
+//@   requires s != nil
+//@   modifies all
+//@   let e0 = old(calls(Cmd.Output))
+//@   ensures [refused-in-remote-mode] s.remote ==> (cert == nil && err != nil && calls(Cmd.Output) == e0)
+//@   ensures [tool-failure-is-an-error] (!s.remote && ret(Cmd.Output, e0, 1) != nil) ==> (cert == nil && err == ret(Cmd.Output, e0, 1))
